@@ -106,6 +106,15 @@ def guarded(rep, rule, instance, f, thunk):
         file, line = fn_loc(f) if f else (None, None)
         rep.ob(rule, instance, False, 'function diverges (panics) on every path', fn=f['path'] if f else instance,
                file=file, line=line, key='%s:diverges:%s' % (rep.prop, instance))
+    except (RecursionError, LookupError, AttributeError, TypeError, ArithmeticError, AssertionError, ValueError) as e:
+        # the analysis met a shape of code it was not written for and fell over: that is "not covered", reported as such
+        # (a defect of the checker itself — a NameError, an import error — is not caught here and ends the run with status 2)
+        import traceback
+        tb = traceback.extract_tb(e.__traceback__)
+        at = '%s:%d' % (tb[-1].filename.rsplit('/', 1)[-1], tb[-1].lineno) if tb else '?'
+        file, line = fn_loc(f) if f else (None, None)
+        rep.ob(rule, instance, False, 'analysis does not cover this construct (fails closed): internal %s at %s: %s' % (type(e).__name__, at, str(e)[:120]),
+               fn=f['path'] if f else instance, file=file, line=line, key='%s:unsupported:%s' % (rep.prop, instance))
     return None
 
 
